@@ -69,10 +69,16 @@ pub fn real_d1(dep: &impl U, a: u8) -> Val {
     Val::new(user_code(dep, "real", REAL_ID, "d1", a))
 }
 
-pub const METHODS: [&str; 7] = ["r0", "r1", "r2", "d0", "d1", "t0", "b0"];
+/// A generic trait: every instantiation is a distinct method ("g8" = UG<u8>::g, "g16" = UG<u16>::g).
+#[unimock(api=UGMock)]
+pub trait UG<T> {
+    fn g(&self, a: u8) -> Val;
+}
+
+pub const METHODS: [&str; 9] = ["r0", "r1", "r2", "d0", "d1", "t0", "b0", "g8", "g16"];
 
 /// Invoke method `node.m` on `dep` with the node's script pending; returns the id of the result.
-pub fn call_on<T: U + ?Sized>(dep: &T, node: &Node) -> (u32, u32) {
+pub fn call_on<T: U + UG<u8> + UG<u16> + ?Sized>(dep: &T, node: &Node) -> (u32, u32) {
     set_script(node.sc.clone(), node.up);
     let r = match node.m.as_str() {
         "r0" => {
@@ -103,6 +109,14 @@ pub fn call_on<T: U + ?Sized>(dep: &T, node: &Node) -> (u32, u32) {
             let v = dep.b0(node.a);
             (v.id, v.gen)
         }
+        "g8" => {
+            let v = <T as UG<u8>>::g(dep, node.a);
+            (v.id, v.gen)
+        }
+        "g16" => {
+            let v = <T as UG<u16>>::g(dep, node.a);
+            (v.id, v.gen)
+        }
         other => panic!("harness: unknown method {other}"),
     };
     // a script that nobody consumed must not leak into the next call
@@ -112,11 +126,53 @@ pub fn call_on<T: U + ?Sized>(dep: &T, node: &Node) -> (u32, u32) {
 
 /// The body of every piece of user code: log, run the pending script on the dependency, return.
 pub fn user_code<T: U + ?Sized>(dep: &T, who: &str, id: u32, m: &str, a: u8) -> u32 {
+    user_code_with(who, id, m, a, std::any::type_name::<T>(), &mut |child| call_on_u(dep, child))
+}
+
+/// nested calls from user code: the dependency is only known to implement U
+pub fn call_on_u<T: U + ?Sized>(dep: &T, node: &Node) -> (u32, u32) {
+    set_script(node.sc.clone(), node.up);
+    let r = match node.m.as_str() {
+        "r0" => {
+            let v = dep.r0(node.a);
+            (v.id, v.gen)
+        }
+        "r1" => {
+            let v = dep.r1(node.a);
+            (v.id, v.gen)
+        }
+        "r2" => {
+            let v = dep.r2(node.a);
+            (v.id, v.gen)
+        }
+        "d0" => {
+            let v = dep.d0(node.a);
+            (v.id, v.gen)
+        }
+        "d1" => {
+            let v = dep.d1(node.a);
+            (v.id, v.gen)
+        }
+        "t0" => {
+            let v = dep.t0(node.a);
+            (v.id, 0)
+        }
+        "b0" => {
+            let v = dep.b0(node.a);
+            (v.id, v.gen)
+        }
+        other => panic!("harness: method {other} cannot be called from user code"),
+    };
+    let _ = take_script();
+    r
+}
+
+pub fn user_code_with(who: &str, id: u32, m: &str, a: u8, dep_type: &str, call: &mut dyn FnMut(&Node) -> (u32, u32)) -> u32 {
     let (sc, up) = take_script().unwrap_or((Vec::new(), false));
     log(Event::Run { who: who.to_string(), m: m.to_string(), a, id: if who == "answer" { id } else { 0 } });
-    DEPS.with(|d| d.borrow_mut().push(std::any::type_name::<T>().to_string()));
+    DEPS.with(|d| d.borrow_mut().push(dep_type.to_string()));
     for child in &sc {
-        let (cid, _gen) = call_on(dep, child);
+        let (cid, _gen) = call(child);
         log(Event::Ret { m: child.m.clone(), id: cid });
     }
     if up {
